@@ -185,6 +185,19 @@ func cmdCheck(prop, tier string, keep bool) int {
 	defect := false
 	if tier == "thorough" {
 		extra["postcondition_hypotheses_never_satisfiable"] = neverCovered
+		var single []string
+		for _, r := range results {
+			for _, sv := range r.Solvers {
+				if strings.HasSuffix(sv, "(single)") {
+					single = append(single, r.Name)
+					break
+				}
+			}
+		}
+		extra["discharged_by_a_single_solver_only"] = single
+		if len(single) > 0 {
+			fmt.Printf("%s: %d of the obligations were decided by one solver only within the timeout (listed in the evidence); all others by two agreeing solvers\n", prop, len(single))
+		}
 		// bounded validation of the trusted base (never counted as proof): operator models and
 		// math axioms against the real Go operations, plus a canary that must be reported
 		rep := runModelValidation(seedFromEnv())
